@@ -16,6 +16,8 @@ both models are tied to the source by tools/corr/C11.py.
   witness), `dtVolumeOld_last`, `dtVolumeOld_partial`
 * per-phase update `updateAll_perm`, `updateAll_equivariant`, `getDt_updateAll_perm`; the dedented form
   `updateDedented_order_dependent` (counter-example)
+* per-phase set-up `setupAll_perm`, `setupAll_equivariant`, `setupAll_single`; the late-binding closure form
+  `setupLateBound_order_dependent` (counter-example), `setupLateBound_partial`
 * `getDt_perm`, site competition `calcSites_perm` / `calcSites_others`, whole step `stepSummary_perm`,
   `stepSummary_equivariant`
 
@@ -788,6 +790,55 @@ example :
       DtRules.fn, minList, minS, List.range, List.range.loop, List.filter]
 
 end update
+
+/-! ## what `setup()` establishes per phase -/
+section setup
+open KawinV.DtRules
+variable {π σ : Type}
+
+/-- set-up is `map` of a per-phase function: a re-listing of the phases gives the same re-listing of the
+per-phase set-up state (tables and installed functions alike) -/
+theorem setupAll_perm (mk : π → σ) {phases phases' : List π} (h : phases ~ phases') :
+    setupAll mk phases ~ setupAll mk phases' :=
+  h.map _
+
+theorem setupAll_equivariant [Inhabited π] [Inhabited σ] (mk : π → σ) (phases : List π) (p : List Nat)
+    (hp : p ~ List.range phases.length) : setupAll mk (take p phases) = take p (setupAll mk phases) := by
+  unfold setupAll
+  exact (take_map p phases _ (mem_lt_of_perm_range hp)).symm
+
+/-- every phase is set up as it is when it is the only phase of the model -/
+theorem setupAll_single (mk : π → σ) (phases : List π) (ph : π) (h : ph ∈ phases) :
+    setupAll mk [ph] = [mk ph] ∧ mk ph ∈ setupAll mk phases :=
+  ⟨rfl, List.mem_map_of_mem h⟩
+
+/-- before any step: update after set-up, then the step size — invariant under a re-listing -/
+theorem getDt_after_setup_perm {α : Type} [Field α] [LinearOrder α] [IsStrictOrderedRing α] [Trans α]
+    (mk : π → Phase α) (c : Cfg α) (s : StepIn α) {phases phases' : List π} (h : phases ~ phases') :
+    getDt c s (setupAll mk phases) = getDt c s (setupAll mk phases') :=
+  getDt_perm c s (setupAll_perm mk h)
+
+/-- **counter-example: the late-binding form.**  Phases are (name, calculateAspectRatio); `mk` is the phase's own
+table (its name).  Listed (needle 1, sphere 2) the needle evaluates the table of phase 2; listed (sphere 2, needle 1)
+it evaluates its own. -/
+theorem setupLateBound_order_dependent :
+    setupLateBound (fun ph : Nat × Bool => ph.2) (fun ph => ph.1) [(1, true), (2, false)] = [2, 2] ∧
+    setupLateBound (fun ph : Nat × Bool => ph.2) (fun ph => ph.1) [(2, false), (1, true)] = [2, 1] ∧
+    setupAll (fun ph : Nat × Bool => ph.1) [(1, true), (2, false)] = [1, 2] ∧
+    setupAll (fun ph : Nat × Bool => ph.1) [(2, false), (1, true)] = [2, 1] := by
+  decide
+
+/-- what did hold for the late-binding form: listings that keep the same phase last -/
+theorem setupLateBound_partial (isCalc : π → Bool) (mk : π → σ) {phases phases' : List π} (h : phases ~ phases')
+    (hlast : phases.getLast? = phases'.getLast?) :
+    setupLateBound isCalc mk phases ~ setupLateBound isCalc mk phases' := by
+  unfold setupLateBound
+  rw [hlast]
+  cases phases'.getLast? with
+  | none => exact List.Perm.refl _
+  | some l => exact h.map _
+
+end setup
 
 /-! ## diffusion step: `D·∇x` commutes with a re-listing of the independent elements -/
 section diffusion
